@@ -474,6 +474,28 @@ func (x *Exec) constTree(n *constNode, t types.Type) Val {
 			s.IsString = true // immutable: the frame check guarantees nobody writes package-level byte slices
 			return s
 		}
+		if mt, ok := machineType(u.Elem()); ok && mt.W == 8 && n.Kids != nil {
+			// []byte{c0, c1, ...} with constant elements: the same as a string constant
+			bs := make([]byte, len(n.Kids))
+			okAll := true
+			for i, k := range n.Kids {
+				if k == nil || k.Val == nil {
+					okAll = false
+					break
+				}
+				v, exact := constant.Int64Val(constant.ToInt(k.Val))
+				if !exact || v < 0 || v > 255 {
+					okAll = false
+					break
+				}
+				bs[i] = byte(v)
+			}
+			if okAll {
+				s := x.constString(string(bs))
+				s.IsString = true
+				return s
+			}
+		}
 	}
 	panic(unsupported("global initialiser of type " + t.String()))
 }
